@@ -11,7 +11,7 @@ THEOREMS = ["C18_ssh_reference_grammar", "C18_ssh_reference_first_crlf", "C18_ss
             "C18_answer_udp", "C18_answer_tcp_first", "C18_current",
             "C18_current_ssh_identification", "C18_current_ghost_identification",
             "C18_frame_udp", "C18_frame_tcp_first_state", "C18_frame_tcp_first_history",
-            "C18_current_frame_udp", "C18_current_frame_tcp_first", "Env.the_env_ok"]
+            "C18_current_frame_udp", "C18_current_frame_tcp_first", "SrcTie.src_ssh_ghost_literals", "Env.the_env_ok"]
 MONITORS = ["C18udp", "C18tcp"]
 RULE = ("SSH identification strings built from version strings (2.0 / 1.99 / extra digits and dots / non-digits), software "
         "and comment strings over all 256 byte values (weighted towards CR, LF, SP, '-'), every terminator variant (CR LF, "
